@@ -82,6 +82,11 @@ def gen_cases(kind, n, salt):
     elif kind == "msetdup":
         for i in range(n):
             cases.append(("msetdup", i, None, {"strategy": "auto", "lists": "on"}))
+    elif kind == "huge":
+        # total costs beyond 2^16 (and single sizes close to it) that are cheap to compute: huge leaves are only ever
+        # paired with small leaves or with containers of another kind (constant-cost edits)
+        for i in range(n):
+            cases.append(("huge", i, None, r.choice(docs.ALL_OPTS)))
     elif kind == "xml":
         for i in range(n):
             cases.append(("xml", i, None, r.choice(docs.ALL_OPTS[:3] + docs.ALL_OPTS[6:])))
@@ -97,6 +102,24 @@ def build_pair(case, salt):
     if kind == "mset":
         r = rng("mset", salt, a)
         return docs.random_mset_tree(r), docs.random_mset_tree(r)
+    if kind == "huge":
+        r = rng("huge", salt, a)
+        k = a % 4
+        big = lambda ch: ch * r.randint(22000, 34000)
+        if k == 0:
+            x, y = [big("x"), big("y"), big("z")][: r.randint(2, 3)], [1, 2, 3][: r.randint(1, 3)]
+        elif k == 1:
+            x, y = [7, big("q")], [big("w"), 8, 9]
+            y = [[y[0]], 8, 9]
+        elif k == 2:
+            x = [big("s"), {("k%d" % j): j for j in range(r.randint(3000, 4500))}]
+            y = [list(range(1000, 1000 + r.randint(6000, 8000))), [list(range(100, 100 + r.randint(5000, 7000)))]]
+        else:
+            x = {"a": big("u"), "b": big("v"), "c": 1}
+            y = {"a": [1], "b": {"z": 2}, "d": 1}
+        if r.random() < 0.5:
+            x, y = y, x
+        return docs.build(x, opts), docs.build(y, opts)
     if kind == "msetdup":
         r = rng("msetdup", salt, a)
         return docs.random_mset_tree(r, dup=True), docs.random_mset_tree(r, dup=True)
